@@ -120,12 +120,13 @@ class Var(Aggregation):
         result = np.maximum(result, 0)
         if self.ddof != 0:
             result = result * n / (n - self.ddof)
-            # not defined for fewer than ddof + 1 observations (a residue of
-            # rounding in the numerator would otherwise come out as inf)
-            if hasattr(result, 'where'):
-                result = result.where(n > self.ddof)
-            elif not n > self.ddof:
-                result = float('nan')
+        # not defined for fewer than ddof + 1 observations (a residue of
+        # rounding in the numerator would otherwise come out as inf, or,
+        # clipped, as 0)
+        if hasattr(result, 'where'):
+            result = result.where(n > self.ddof)
+        elif not n > self.ddof:
+            result = float('nan')
         return result
 
     def on_new(self, acc, new):
@@ -604,12 +605,13 @@ class GroupbyVar(GroupbyAggregation):
         result = np.maximum(result, 0)
         if self.ddof != 0:
             result = result * n / (n - self.ddof)
-            # not defined for fewer than ddof + 1 observations (a residue of
-            # rounding in the numerator would otherwise come out as inf)
-            if hasattr(result, 'where'):
-                result = result.where(n > self.ddof)
-            elif not n > self.ddof:
-                result = float('nan')
+        # not defined for fewer than ddof + 1 observations (a residue of
+        # rounding in the numerator would otherwise come out as inf, or,
+        # clipped, as 0)
+        if hasattr(result, 'where'):
+            result = result.where(n > self.ddof)
+        elif not n > self.ddof:
+            result = float('nan')
         return result
 
     def on_new(self, acc, new, grouper=None):
